@@ -100,7 +100,7 @@ var templateSrc = []struct {
 	{"ls2", "r", "(let* ((x ?i) (y ?i+x)) ?a+x+y ?r+x+y)", true},
 	{"lss", "l", "(let ((x ?i) (y ?i)) (let* ((x ?i+x+y) (y ?i+x+y)) (list x y ?a+x+y)))", false},
 	{"lsn", "l", "(let* (x (y)) (list x y ?a))", false},
-	{"ltv", "l", "(let ((x (values ?a ?a))) (list x))", false},
+	{"ltv", "a", "(let ((x (values ?a ?a))) x)", false},
 	// setq
 	{"sq1", "l", "(let ((x ?i)) (list (setq x ?i+x) x ?a+x x))", true},
 	{"sq2", "l", "(let ((x ?i) (y ?i)) (list (setq x ?i+x+y y ?i+x+y) x y))", false},
